@@ -85,7 +85,7 @@ var expectedProbes = map[string][]string{
 	"C07": {"probe.dense.batch>=1024", "probe.post.target-beyond-32-bits", "probe.post.1hit-list", "probe.post.replaceactual", "probe.post.list>=3hits", "probe.post.list>=3chunks", "probe.prealloc.from-closed-segment"},
 	"C08": {"probe.dict.checked-against-batch", "probe.dict.exhausted-iterator-asked-again", "probe.dict.merged>=2terms", "probe.dict.multi-after-single", "probe.dict.two-iterators-of-one-dictionary"},
 	"C10": {"probe.build.size-compared-with-slack", "probe.pool.builder-reused", "probe.pool.object-reused-across-tasks", "fault.build.rejected", "probe.build.size-compared", "probe.yield.zapx:new.afterGet", "probe.yield.zapx:new.beforePut"},
-	"C11": {"probe.pool.object-reused-across-tasks", "probe.yield.zapx:dict.beforeLock", "probe.yield.zapx:syncache.window", "probe.yield.visit.insideCallback", "probe.yield.merge.reportBytesWritten", "fault.poolflush"},
+	"C11": {"probe.readers.parallel-burst-rounds", "probe.pool.object-reused-across-tasks", "probe.yield.zapx:dict.beforeLock", "probe.yield.zapx:syncache.window", "probe.yield.visit.insideCallback", "probe.yield.merge.reportBytesWritten", "fault.poolflush"},
 	"C13": {"probe.merge.chain>=2", "probe.syn.empty-term", "probe.syn.empty-thesaurus"},
 	"C15": {"probe.merge.chain>=2", "probe.vec.boundary-batch"},
 	"C16": {"fault.engine.load-failed-in-open", "probe.vc.entry-shared-across-except-bitmaps", "probe.vc.eviction-then-reload", "fault.expiry.evictions", "probe.yield.zapx:veccache.window.create", "probe.yield.zapx:veccache.window.docvec"},
